@@ -465,6 +465,17 @@ fn part_b(rng: &mut Rng, n: usize, n_make: usize, table_fixed: bool, st: &mut St
         };
         if mtext != real {
             st.fail("correspondence", "depfile_string-vs-toStringWith", input(vec![("model_text", json_str(&mtext))]));
+            // failing-input search without the model: does the real make read the names back?
+            let names: Vec<&String> = std::iter::once(tgt).chain(deps.iter()).collect();
+            let want_t = vec![sd(tgt)];
+            let want_d: Vec<String> = deps.iter().map(|d| sd(d)).collect();
+            if comparable(&want_t, &want_d) && names.iter().all(|n| !n.is_empty() && in_quantifier(n))
+                && !names.iter().any(|n| region_hash(table_fixed, n) || region_dollar(table_fixed, n) || region_backslash(n)) && !region_trailing_space(deps) {
+                let real_entries = make_entries(&s.0, real.as_bytes());
+                if real_entries.as_ref() != Some(&render(&want_t, &want_d)) {
+                    st.fail("oracle-failure", "depfile-roundtrip", input(vec![("make_reads", real_entries.map_or("null".into(), |r| jlist(&r))), ("note", json_str("found while the model is out of step"))]));
+                }
+            }
             continue;
         }
         st.distinct.insert(format!("B:{real}"));
@@ -1006,6 +1017,7 @@ struct WholeOut {
 }
 
 fn run_case(c: &Case, idx: usize, table_fixed: bool, st: &mut Stats, self_exe: &Path) -> WholeOut {
+    let mut model_broken = false;
     let sc = Scratch::new(&format!("c17dag{idx}"));
     let root = std::fs::canonicalize(&sc.0).unwrap();
     for d in &c.dirs {
@@ -1154,7 +1166,9 @@ fn run_case(c: &Case, idx: usize, table_fixed: bool, st: &mut Stats, self_exe: &
     }
     if inc_ids != m_reported {
         fail(st, "correspondence", "include_file-sequence-vs-model-reported", vec![("implementation", json_str(&nat_list(&inc_ids))), ("model", json_str(&nat_list(&m_reported)))]);
-        return WholeOut { ok: false };
+        // the model is out of step: go on with the model-free oracles below (make, clang -H / -M): they
+        // are the failing-input search
+        model_broken = true;
     }
     st.add("C.include_notifications", inc_ids.len() as u64);
     // ---- cargo lines: model of CargoCallbacks on the model's event list
@@ -1194,7 +1208,7 @@ fn run_case(c: &Case, idx: usize, table_fixed: bool, st: &mut Stats, self_exe: &
     let mtext = toks.get("text").map(|h| unhex_s(h)).unwrap_or_default();
     if mtext != dep_text {
         fail(st, "correspondence", "depfile-text-vs-model", vec![("implementation", json_str(&dep_text)), ("model", json_str(&mtext))]);
-        return WholeOut { ok: false };
+        model_broken = true;
     }
     // ---- depfile read by make and by the model
     let mparse = if rta.contains(" none ") { None } else { parse_answer(&rta) };
@@ -1204,7 +1218,7 @@ fn run_case(c: &Case, idx: usize, table_fixed: bool, st: &mut Stats, self_exe: &
     std::fs::create_dir_all(&mkdir).unwrap();
     let real_entries = make_entries(&mkdir, &dep_bytes);
     st.inc("C.make_runs");
-    if let Some((t, d)) = &mparse {
+    if let (Some((t, d)), false) = (&mparse, model_broken) {
         if comparable(t, d) && real_entries.as_ref() != Some(&render(t, d)) {
             fail(st, "correspondence", "make-spec", vec![("depfile", json_str(&dep_text)), ("model_parse", jlist(&render(t, d))), ("make", real_entries.clone().map_or("null".into(), |r| jlist(&r)))]);
         }
@@ -1215,7 +1229,7 @@ fn run_case(c: &Case, idx: usize, table_fixed: bool, st: &mut Stats, self_exe: &
         st.inc("C.depfile_roundtrip_ok");
         // make's names, realpath-normalised, are exactly the files read
         let got: BTreeSet<usize> = want_d.iter().filter_map(|n| canon(&root, n).and_then(|p| id_of.get(&p).copied())).collect();
-        if got != entered_set {
+        if got != entered_set && !model_broken {
             fail(st, "oracle-failure", "depfile-set-vs-files-read", vec![("depfile", json_str(&dep_text))]);
         }
     } else if comparable(&want_t, &want_d) {
@@ -1231,6 +1245,9 @@ fn run_case(c: &Case, idx: usize, table_fixed: bool, st: &mut Stats, self_exe: &
         let wit = jobj(&[("part", json_str("C")), ("depfile_text", json_str(&dep_text)), ("make_reads", real_entries.clone().map_or("null".into(), |r| jlist(&r))), ("case", case_json(c, &root))]);
         if !all_names.iter().all(|n| in_quantifier(n)) {
             st.inc("C.outside_quantifier");
+        } else if model_broken {
+            // no prediction available: a failure inside a listed region is not judged, one outside is the failing input
+            if rh || rd || rb || rtsp { st.inc("C.region_unpredicted"); } else { st.fail("oracle-failure", "depfile-roundtrip", wit); }
         } else if (rh || rd) && predicted {
             st.known("depfile_hash_dollar", wit);
         } else if rb && predicted {
@@ -1247,7 +1264,7 @@ fn run_case(c: &Case, idx: usize, table_fixed: bool, st: &mut Stats, self_exe: &
     }
     // recorded names (before any make reading), realpath-normalised = files read: the property's set claim
     let rec: BTreeSet<usize> = names.iter().filter_map(|n| canon(&root, n).and_then(|p| id_of.get(&p).copied())).collect();
-    if rec.len() != names.iter().filter_map(|n| canon(&root, n)).collect::<BTreeSet<_>>().len() || rec != entered_set {
+    if !model_broken && (rec.len() != names.iter().filter_map(|n| canon(&root, n)).collect::<BTreeSet<_>>().len() || rec != entered_set) {
         fail(st, "oracle-failure", "recorded-set-vs-model-files-read", vec![("recorded", jlist(&names)), ("model_entered", json_str(&nat_list(&m_entered)))]);
     }
     // ---- oracle: clang -H / -M on the same command line
